@@ -477,10 +477,10 @@ fn c03_parts(c: &mut Ctx, r: &mut Rng, fam: Fam, b: &[u8]) {
 pub fn c03(ctx: &mut Ctx, layer: &str) {
     let thorough = ctx.thorough;
     let (n_short3, n_host): (u64, usize) = match layer {
-        "miri" => (0, 60),
+        "miri" => (0, if thorough { 16_000 } else { 800 }),
         "vg" => (20_000, if thorough { 300_000 } else { 40_000 }),
         "asan" => (if thorough { 1 << 24 } else { 200_000 }, if thorough { 20_000_000 } else { 300_000 }),
-        _ => (if thorough { 1 << 24 } else { 2_000_000 }, if thorough { 50_000_000 } else { 1_000_000 }),
+        _ => (if thorough { 1 << 24 } else { 2_000_000 }, if thorough { 50_000_000 } else { 3_000_000 }),
     };
     let tiny = layer == "miri";
     wl::par(ctx, |w, n, c, r| {
@@ -698,13 +698,13 @@ fn short_out(o: &DecOut) -> String {
 
 pub fn c06(ctx: &mut Ctx, layer: &str) {
     let n_host: usize = match layer {
-        "miri" => 40,
+        "miri" => if ctx.thorough { 6_000 } else { 400 },
         "vg" => 20_000,
         _ => {
             if ctx.thorough {
                 50_000_000
             } else {
-                1_000_000
+                6_000_000
             }
         }
     };
@@ -852,13 +852,13 @@ pub fn accepted_workload(r: &mut Rng, fam: Fam, n: usize, f: &mut dyn FnMut(&[u8
 
 pub fn c11(ctx: &mut Ctx, layer: &str) {
     let n_in: usize = match layer {
-        "miri" => 30,
+        "miri" => if ctx.thorough { 5_000 } else { 300 },
         "vg" => 10_000,
         _ => {
             if ctx.thorough {
                 20_000_000
             } else {
-                400_000
+                3_000_000
             }
         }
     };
@@ -905,13 +905,13 @@ pub fn c12_input(c: &mut Ctx, fam: Fam, b: &[u8], class: &str) {
 
 pub fn c12(ctx: &mut Ctx, layer: &str) {
     let n_in: usize = match layer {
-        "miri" => 12,
+        "miri" => if ctx.thorough { 3_000 } else { 90 },
         "vg" => 5_000,
         _ => {
             if ctx.thorough {
                 8_000_000
             } else {
-                200_000
+                1_500_000
             }
         }
     };
